@@ -30,7 +30,7 @@ func runC16(w *World, r *Report) {
 	c16CompareBeforeEqual(w, r)
 	c16SkipDir(w, r)
 	r.Floor("C16-e", r.countRule("C16-e"), 1)
-	r.Floor("C16-f", r.countRule("C16-f"), 2)
+	r.Floor("C16-f", r.countRule("C16-f"), 1)
 	r.Floor("C16-a", r.countRule("C16-a"), 12)
 	r.Floor("C16-b", r.countRule("C16-b"), 7)
 	r.Floor("C16-c", r.countRule("C16-c"), 3)
